@@ -457,4 +457,111 @@ theorem wide_zeroMsg (S : Schema) (id : Nat) : Wide S id (zeroMsg S id) := by
   unfold zeroMsg zeroMsgN
   exact ⟨_, [], rfl, by simp⟩
 
+/-! ### wire-equivalent re-encodings: split sub-messages, packed vs unpacked -/
+
+/-- C02 "a sub-message split into several occurrences": for a singular (non-repeated, non-cast)
+message field, one record whose payload is `a ++ b` — `a` a complete sequence of records — has the
+effect of a record with payload `a` followed by a record with payload `b` (merge semantics) -/
+theorem applyU_split (S : Schema) (f : Field) (id : Nat) (hk : f.kind = .message id)
+    (hcat : ¬ (f.cat == 1 ∨ f.cat == 2)) (hrep : f.repeated = false)
+    (r ra rb : Record) (hw : r.wire = 2) (hwa : ra.wire = 2) (hwb : rb.wire = 2)
+    (hp : r.payload = ra.payload ++ rb.payload) (n : Nat) (rs : List Record) (hrs : records n ra.payload = some rs)
+    (cur : Val) :
+    applyU S f r cur = (applyU S f ra cur).bind (applyU S f rb) := by
+  unfold applyU apply1
+  simp only [hk, hw, hwa, hwb, hcat, hrep, ne_eq, not_true_eq_false, if_false, Bool.false_eq_true, hp]
+  have key := fun m => specUnmarshal_append_records S id rb.payload n ra.payload rs m hrs
+  by_cases hptr : f.pointer S = true
+  · simp only [hptr, if_true, key]
+    cases specUnmarshal S id ra.payload (match cur with | .some x => x | _ => zeroMsg S id) with
+    | none => rfl
+    | some m1 => rfl
+  · simp only [hptr, if_false, Bool.false_eq_true, key]
+
+
+theorem fieldOf_kind (f : Field) : (fieldOf f).kind = f.kind := by unfold fieldOf; split <;> rfl
+theorem fieldOf_cat (f : Field) : (fieldOf f).cat = f.cat := by unfold fieldOf; split <;> rfl
+theorem fieldOf_repeated (f : Field) : (fieldOf f).repeated = f.repeated := by
+  unfold fieldOf; split <;> rfl
+
+theorem target_wrapV (S : Schema) (f : Field) (v : Val) : target S f (wrapV f v) = (v, false) := by
+  unfold target wrapV
+  by_cases h : f.inOneof = true <;> simp [h]
+
+/-- the same at message level: a record of a known singular message field (a oneof member too) with
+payload `a ++ b` = the record with payload `a`, then the record with payload `b` -/
+theorem stepU_split (S : Schema) (id : Nat) (m : Val) (hw : Wide S id m) (i : Nat) (f : Field) (sub : Nat)
+    (r ra rb : Record) (hnum : findField (S.msg id).fields r.num = some (i, f))
+    (hna : ra.num = r.num) (hnb : rb.num = r.num)
+    (hk : f.kind = .message sub) (hcat : ¬ (f.cat == 1 ∨ f.cat == 2)) (hrep : f.repeated = false)
+    (hwr : r.wire = 2) (hwa : ra.wire = 2) (hwb : rb.wire = 2)
+    (hp : r.payload = ra.payload ++ rb.payload) (n : Nat) (rs : List Record) (hrs : records n ra.payload = some rs) :
+    stepU S id r m = (stepU S id ra m).bind (stepU S id rb) := by
+  obtain ⟨slots, u, rfl, hl⟩ := hw
+  have hfi := findField_getElem? _ _ _ _ hnum
+  have hil : i < slots.length := by
+    have : i < (S.msg id).fields.length := by
+      rcases Nat.lt_or_ge i (S.msg id).fields.length with h | h
+      · exact h
+      · rw [List.getElem?_eq_none (by omega)] at hfi; cases hfi
+    omega
+  unfold stepU
+  rw [step_known S _ id r slots u i f hnum, step_known S _ id ra slots u i f (by rw [hna]; exact hnum)]
+  have hsplit := applyU_split S (fieldOf f) sub (by rw [fieldOf_kind]; exact hk) (by rw [fieldOf_cat]; exact hcat)
+    (by rw [fieldOf_repeated]; exact hrep) r ra rb hwr hwa hwb hp n rs hrs
+  rw [hsplit]
+  cases applyU S (fieldOf f) ra (target S f (slots.getD i Val.none)).1 with
+  | none => rfl
+  | some va =>
+    simp only [Option.bind_some, Option.map_some]
+    rw [step_known S _ id rb _ u i f (by rw [hnb]; exact hnum)]
+    have hlen : i < (baseSlots (S.msg id).fields f i (target S f (slots.getD i Val.none)).2 slots).length := by
+      rw [baseSlots_length _ _ _ _ _ hl]; exact hil
+    have hget : ((baseSlots (S.msg id).fields f i (target S f (slots.getD i Val.none)).2 slots).set i (wrapV f va)).getD i Val.none = wrapV f va := by
+      rw [getD_eq, List.getElem?_set_self hlen]; rfl
+    rw [hget, target_wrapV]
+    simp only [baseSlots, Bool.false_eq_true, if_false, List.set_set]
+
+
+/-- the effect of a list of records on one field's variable, in order -/
+def foldApply (S : Schema) (f : Field) : List Record → Val → Option Val
+  | [], cur => some cur
+  | r :: rs, cur => (applyU S f r cur).bind (foldApply S f rs)
+
+/-- C02 "repeated scalars packed, unpacked or mixed": for a repeated scalar field of a packable kind,
+one packed record whose payload unpacks to `xs` has the effect of the unpacked records `es` carrying
+the same values one by one -/
+theorem applyU_packed_eq_unpacked (S : Schema) (f : Field) (k : Scalar) (hk : f.kind = .scalar k)
+    (hrep : f.repeated = true) (hnb : k.isBytes = false) (hw2 : k.wire ≠ 2)
+    (r : Record) (hw : r.wire = 2) (xs : List Enc.SVal)
+    (hun : unpack k (r.payload.length + 1) r.payload = some xs)
+    (es : List Record) (hes : es.map (fun e => (e.wire, e.scalar k)) = xs.map (fun x => (k.wire, some x)))
+    (cur : Val) (hcur : ∃ l, cur = .list l) :
+    applyU S f r cur = foldApply S f es cur := by
+  obtain ⟨l, rfl⟩ := hcur
+  have hL : applyU S f r (.list l) = some (.list (l ++ xs.map Val.ofSVal)) := by
+    unfold applyU apply1
+    simp [hk, hrep, hw, hnb, hun, Val.list!]
+  rw [hL]
+  clear hL hun
+  induction es generalizing l xs with
+  | nil =>
+    cases xs with
+    | nil => simp [foldApply]
+    | cons x xs => simp at hes
+  | cons e es ih =>
+    cases xs with
+    | nil => simp at hes
+    | cons x xs =>
+      simp only [List.map_cons, List.cons.injEq, Prod.mk.injEq] at hes
+      obtain ⟨⟨hew, hev⟩, hrest⟩ := hes
+      have he : applyU S f e (.list l) = some (.list (l ++ [Val.ofSVal x])) := by
+        unfold applyU apply1
+        have hne : ¬ (e.wire = 2) := by rw [hew]; exact hw2
+        simp only [hk, hrep, if_true, hne, false_and, if_false, hev, Option.map_some, Val.list!]
+      simp only [foldApply, he, Option.bind_some]
+      rw [← ih xs hrest (l ++ [Val.ofSVal x])]
+      simp [List.append_assoc]
+
+
 end Pico.Spec.Perm
